@@ -366,10 +366,10 @@ def who(ctx, cfg, fs):
         for c in b.calls():
             if c.is_(r'^std::process::(exit|abort)$'):
                 o = outer(b.path)
-                ctx.ob('W.who', 'exit:%s' % o, o in EXIT_TABLE, '%s calls %s: %s' % (b.path, c.name, EXIT_TABLE.get(o, 'NOT a permitted exit site')), where=c.where(), cfg=cfg)
+                ctx.ob('W.who', 'exit:%s' % o, fs.listed(o, EXIT_TABLE), '%s calls %s: %s' % (b.path, c.name, EXIT_TABLE.get(o, 'NOT a permitted exit site')), where=c.where(), cfg=cfg)
             if c.is_(r'^std::io::_e?print$', r'^std::io::(stdout|stderr)$'):
                 o = outer(b.path)
-                ctx.ob('W.who', 'print:%s' % o, o in PRINT_TABLE, '%s prints with %s: %s' % (b.path, c.name, PRINT_TABLE.get(o, 'NOT a permitted print site')), where=c.where(), cfg=cfg)
+                ctx.ob('W.who', 'print:%s' % o, fs.listed(o, PRINT_TABLE), '%s prints with %s: %s' % (b.path, c.name, PRINT_TABLE.get(o, 'NOT a permitted print site')), where=c.where(), cfg=cfg)
     # print_message is only called from run (and its deprecated alias)
     for p, cs in fs.callers().items():
         if p == 'error::ParseFailure::print_message':
